@@ -26,4 +26,10 @@ Definition fmt6 (x : binary64) : option Z :=
 
 Definition norm6 (c t : Z) : option Z := fmt6 (fdiv c t).
 Definition bits (c t : Z) : Z := bits_of_b64 (fdiv c t).
-Eval vm_compute in (norm6 1 128, norm6 3 128, norm6 5 128, norm6 1 3, norm6 2 3, norm6 1 2000000, norm6 0 1, norm6 7 7).
+
+(* non-negative integers as binary64 (exact below 2^53), their bit patterns, and the two renderings the
+   Rust code uses for vector entries: `{}` of an integer-valued float and `{:.6}` *)
+Definition bits_of_Z (c : Z) : Z := bits_of_b64 (b64_of_Z c).
+Definition two64 : binary64 := b64_of_Z 2.
+Definition b64_half_sum (a b : binary64) : binary64 :=
+  b64_div BinarySingleNaN.mode_NE (b64_plus BinarySingleNaN.mode_NE a b) two64.
